@@ -265,7 +265,7 @@ Section Main.
     rewrite pow_mod_nonneg in Hver by lia. cbn [bind] in Hver.
     apply (prod_pows_PP Nm HN) in Hr0 as [Hr00 Hr0]; [|assumption|lia].
     assert (Hsig : cg Nm (s_v sg ^ s_e sg) (PP bases msgs * pk_b pk ^ s_s sg * pk_c pk)).
-    { inversion Hver as [Hq]. apply Z.eqb_eq in Hq.
+    { cbn [orb] in Hver. destruct (two (le CS) <=? s_e sg); [discriminate|]. inversion Hver as [Hq]. apply Z.eqb_eq in Hq.
       rewrite rem_mod_nonneg in Hq by first [lia | repeat apply Z.mul_nonneg_nonneg; try assumption; apply Z.mod_pos_bound; lia].
       unfold cg. eapply eqm_trans; [apply eqm_sym; apply Zmod_eqm|]. rewrite Hq. eapply eqm_trans; [apply Zmod_eqm|].
       apply eqm_mul; [exact HN| |apply eqm_refl]. apply eqm_mul; [exact HN| |apply Zmod_eqm].
@@ -412,6 +412,8 @@ Section Main.
                     (g0 ^ r4 mod Nm * (ck_h ck ^ r9 mod Nm))).
       rewrite !(cg_mod Nm). rewrite (Z.pow_add_r g0 r4) by first [assumption | nn]. rewrite (Z.pow_mul_r g0) by first [assumption | lia].
       apply (schnorr_side Nm HN (g0 ^ r4) (g0 ^ s_e sg) (ck_h ck) r9 (c_rand CCe) ch (c_value CCe) cec); assumption. }
-    rewrite E1, E2, E3, E4, E5. rewrite <- Ech. rewrite Z.eqb_refl. reflexivity.
+    rewrite E1, E2, E3, E4, E5. rewrite <- Ech. rewrite Z.eqb_refl.
+    rewrite map_length. rewrite (hidden_of_sorted U HS (length msgs) 0%nat) by (rewrite Forall_forall in *; intros j Hj; specialize (HU j Hj); lia).
+    rewrite Nat.eqb_refl. reflexivity.
   Qed.
 End Main.
